@@ -20,6 +20,10 @@ func verifC10Step(native bool, pad bool) {
 	st := &vStore{}
 	s := vFullSyncer(env, st, "inst", native, func(c *config.Config, lc *config.LMDB, opt *Options) {
 		lc.HeaderExtraPaddingBlock = pad
+		if !native {
+			// the dupsort hack being configured must not matter for a plain DBI
+			lc.DupSortHack = zz.Choice("cfg.dupsort-hack", 2) == 1
+		}
 	})
 	ctx := context.Background()
 	keys := [][]byte{[]byte("a"), []byte("b")}
